@@ -627,6 +627,25 @@ pub(crate) fn is_same(src: SocketAddr, dst: SocketAddr) -> bool {
     dst.ip().is_loopback() || src.ip() == dst.ip()
 }
 
+/// Read-only table sizes for the verification harness (cargo feature `verif-hooks`).
+#[cfg(feature = "verif-hooks")]
+impl Udp {
+    pub(crate) fn verif_bind_count(&self) -> usize {
+        self.binds.len()
+    }
+}
+
+#[cfg(feature = "verif-hooks")]
+impl Tcp {
+    pub(crate) fn verif_bind_count(&self) -> usize {
+        self.binds.len()
+    }
+
+    pub(crate) fn verif_socket_count(&self) -> usize {
+        self.sockets.len()
+    }
+}
+
 #[cfg(test)]
 mod test {
     use std::time::Duration;
@@ -668,24 +687,5 @@ mod test {
         assert_eq!(49152, host.assign_ephemeral_port());
 
         Ok(())
-    }
-}
-
-/// Read-only table sizes for the verification harness (cargo feature `verif-hooks`).
-#[cfg(feature = "verif-hooks")]
-impl Udp {
-    pub(crate) fn verif_bind_count(&self) -> usize {
-        self.binds.len()
-    }
-}
-
-#[cfg(feature = "verif-hooks")]
-impl Tcp {
-    pub(crate) fn verif_bind_count(&self) -> usize {
-        self.binds.len()
-    }
-
-    pub(crate) fn verif_socket_count(&self) -> usize {
-        self.sockets.len()
     }
 }
